@@ -185,7 +185,9 @@ def handle (st : State) (cmd : String) (inp obsToks : List String) : State × St
           (List.zip sidx (generatedSpec env st.ps land sidx)).findSome? fun (k, sp) =>
             match sp with
             | some v => if dispO[k]! == v then none else
-                some s!"PROPFAIL C16 disperser_sum cell={k} dispersers={dispO[k]!} expected={v} (sum over hosts of lround(rate x weather x competency x infected)) hosts={MultiEng.showCells (land[k]!)}"
+                some (s!"PROPFAIL C16 disperser_sum cell={k} dispersers={dispO[k]!} expected={v} (sum over hosts of lround(rate x weather x competency x infected)) hosts={MultiEng.showCells (land[k]!)}" ++
+                  -- C04 states the same count (infected x reproductive rate x weather x host competency, rounded; one or several hosts)
+                  s!" ;; PROPFAIL C04 deterministic_count cell={k} dispersers={dispO[k]!} expected={v} hosts={MultiEng.showCells (land[k]!)}")
             | none => some s!"MISMATCH mm.gen competency lookup rejected by the specification at cell={k}"
         let modelBad : Option String :=
           if !det then none else
@@ -268,11 +270,9 @@ def handle (st : State) (cmd : String) (inp obsToks : List String) : State × St
                     some (s!"PROPFAIL C16 establish_event cell={k} ret={res} total={sumR l} weights={l} pick={pick} tester={tester}" ++
                       s!" ;; PROPFAIL C12 establish_event cell={k} ret={res} total={sumR l} weights={l} pick={pick} tester={tester}")
                   else none
-              match inv, sei, spec with
-              | some x, _, _ => (st2, x ++ s!" (hosts of cell {k})")
-              | _, some x, _ => (st2, x)
-              | _, _, some x => (st2, x)
-              | none, none, none =>
+              match HostEng.joinVs [inv.map (· ++ s!" (hosts of cell {k})"), sei, spec] with
+              | some x => (st2, x)
+              | none =>
                 -- exact replay through the model of the landing (`landAt`) and the generator calls
                 match landAt st.mcfg st.ps st.spreadLand { k := k, env := env, pick := pick, u := tester }, model with
                 | .ok (land', r), .ok (_, _, used) =>
@@ -328,31 +328,12 @@ def handle (st : State) (cmd : String) (inp obsToks : List String) : State × St
         let parts := (List.range H).flatMap fun h => (delegate st h "hp.stepfwd" inp o.ret (st.suits.getD h []) (o.suits.getD h []) (o.hosts.getD h [])).2
         finish st o (common st o .reclassify ++ parts ++ sameSuits)
       -- Treatments::manage on every host, each over its own cell list
-      | "mm.manage", [stepTok] =>
+      | "mm.manage", [_stepTok] =>
         let rs := (List.range H).map fun h => delegate st h "hp.manage" inp o.ret (st.suits.getD h []) (o.suits.getD h []) (o.hosts.getD h [])
         let tainted := rs.map fun r => r.1.tainted
-        -- C10 on every host: when exactly one treatment event is due at this step, every host's cells in
-        -- its own cell list show that treatment's effect (the specification predicates of C10)
-        let step := (parseNat? stepTok).getD 0
-        let due := st.treats.filter fun t => t.1.eventAt step != .nothing
-        let c10 : List String :=
-          match due with
-          | [(spec, app, coefs)] =>
-            (List.range H).filterMap fun h =>
-              let g := grid st
-              ((st.suits.getD h []).filter fun (r, c) => !(g.isOutside r c)).findSome? fun (r, c) =>
-                let k := g.idx r c
-                let a := (st.hosts.getD h [])[k]!; let b := (o.hosts.getD h [])[k]!
-                let coef := coefs.getD k 0
-                let all := app == .allInfected
-                if !(a.consistent && decide (0 ≤ coef) && decide (coef ≤ 1)) then none
-                else if spec.eventAt step == .apply then
-                  (if spec.pesticide then
-                     (if pesticideTreatSpec coef all a b then none else some s!"PROPFAIL C10 pesticide_share host={h} cell={k} coef={coef} pre={HostEng.showCell a} post={HostEng.showCell b}")
-                   else (if simpleTreatSpec coef all a b then none else some s!"PROPFAIL C10 removal_share host={h} cell={k} coef={coef} pre={HostEng.showCell a} post={HostEng.showCell b}"))
-                else (if pesticideEndSpec coef a b then none else some s!"PROPFAIL C10 pesticide_end host={h} cell={k} pre={HostEng.showCell a} post={HostEng.showCell b}")
-          | _ => []
-        let (st', v) := finish st o (common st o .removal ++ c10 ++ rs.flatMap (·.2) ++ sameSuits)
+        -- C10 on every host (share per class, expiry, untouched cells): evaluated by the single-host handler
+        -- `hp.manage` on the host's own cells and cell list
+        let (st', v) := finish st o (common st o .removal ++ rs.flatMap (·.2) ++ sameSuits)
         ({ st' with tainted := tainted }, v)
       -- Mortality: host h with the rate and lag of ITS row of the pest-host table, over the pool's cell list
       | "mm.mortality", [] =>
@@ -455,6 +436,17 @@ def handle (st : State) (cmd : String) (inp obsToks : List String) : State × St
                   let (cells', _, _) := overpopulationStep g pool pre { disp := [], est := [], outside := [] } thr leave targets
                   if !(mergedSame cells' post) then
                     let k := ((List.range n).find? fun k => (cells'[k]!).s != (post[k]!).s || (cells'[k]!).i != (post[k]!).i).getD 0
+                    let isT := targets.any fun (r, c) => !(g.isOutside r c) && g.idx r c == k
+                    let isD := departing.any fun (r, c) => g.idx r c == k
+                    let inDom := pre.all (fun c => decide (0 ≤ c.s) && decide (0 ≤ c.i)) && decide (0 ≤ thr) && decide (0 ≤ leave) && decide (leave ≤ 1)
+                    -- deterministic neighbour kernel: every destination is known, so C17's sentence fixes what the pool
+                    -- (as one merged host) holds afterwards: round(infected x share) leave each qualifying cell, all
+                    -- departures before any arrival, min(arriving, susceptible) establish
+                    if inDom && isT then
+                      [s!"PROPFAIL C17 arrival cell={k} pool expected s={(cells'[k]!).s} i={(cells'[k]!).i} observed s={(post[k]!).s} i={(post[k]!).i} before s={(pre[k]!).s} i={(pre[k]!).i}"]
+                    else if inDom && isD then
+                      [s!"PROPFAIL C17 leaving_count cell={k} pool leaves={(pre[k]!).i - (post[k]!).i} expected={leavingCount leave (pre[k]!)} before s={(pre[k]!).s} i={(pre[k]!).i} after s={(post[k]!).s} i={(post[k]!).i}"]
+                    else
                     [s!"MISMATCH mm.overpop pool cell={k} model s={(cells'[k]!).s} i={(cells'[k]!).i} observed s={(post[k]!).s} i={(post[k]!).i}"]
                   else
                     -- C16 split: a cell that only sends keeps every host's loss within its infected,
